@@ -736,6 +736,7 @@ class Judge:
         op = rec['op'] if rec else None
         if op and op.get('op') == 'synth' and isinstance(op.get('args'), dict) \
                 and op['args'].get('sequence_value') \
+                and '(freed' not in key and '.as_map' not in key \
                 and key.startswith(('C17/raises/', 'C17/method/', 'C17/grammar/')):
             # one class of input, one mechanism: a dict argument whose value is
             # a sequence (the equivalent list form is sent as a [ ] array)
@@ -1402,6 +1403,20 @@ def run_stream_case(m, server, cap, case, clocks, count, main_lock, wait_limit=8
         raise Violation(f'C17/stream/raises/{_site(e)}', {'tb': short_tb(e)})
     if not done.wait(wait_limit):
         return 'timeout'
+    # get_to_list's end marker is a sentinel on a clock that need not be the
+    # one its requesting routine runs on; on a starved host the sentinel can
+    # overtake the last requests.  Bounded settling (never a verdict by
+    # itself): while fewer chunk commands than expected are on the wire, give
+    # the routine up to 4 s more; a chunk that is really lost stays lost.
+    cmd_b = (b'/b_setn' if kind == 'send_list' else b'/b_getn')
+    t0 = _time.time()
+    while _time.time() - t0 < 4.0:
+        seen = sum(d.count(cmd_b) for d, _t in list(cap.calls))
+        if seen >= nchunks:
+            break
+        _time.sleep(0.05)
+    else:
+        count('stream_cases_settling_bound_reached')
     calls = list(cap.calls)
     packets = [(osc.decode(b), t) for b, t in calls]
     # ---- expected chunk sequence
